@@ -398,3 +398,52 @@ package cbcmac
 //@   ensures as(result, lmac).b1 != nil && as(result, lmac).b2 != nil && as(result, lmac).pad != nil
 //@   ensures BS(id(as(result, lmac).b1)) == bs && BS(id(as(result, lmac).b2)) == bs && PADBS(id(as(result, lmac).pad)) == bs
 //@   modifies nothing
+
+//@ func NewEMACWithPadding property C19
+//@   config bs in 8,16
+//@   requires FBS() == bs && creator != nil && newPaddingFunc != nil
+//@   fnspec creator: std:cipherCreator
+//@   fnspec newPaddingFunc: std:paddingCreator
+//@   maypanic
+//@   ensures typeis(result, *emac) && as(result, emac).size == size && 1 <= size && size <= bs
+//@   ensures as(result, emac).b1 != nil && as(result, emac).b2 != nil && as(result, emac).pad != nil
+//@   ensures BS(id(as(result, emac).b1)) == bs && BS(id(as(result, emac).b2)) == bs && PADBS(id(as(result, emac).pad)) == bs
+//@   ensures id(as(result, emac).b1) == CIPHID(arr(key1), offof(key1), len(key1)) && id(as(result, emac).b2) == CIPHID(arr(key2), offof(key2), len(key2))
+//@   modifies nothing
+
+//@ func NewANSIRetailMACWithPadding property C19
+//@   config bs in 8,16
+//@   requires FBS() == bs && creator != nil && newPaddingFunc != nil
+//@   maypanic
+//@   ensures typeis(result, *ansiRetailMAC) && as(result, ansiRetailMAC).size == size && 1 <= size && size <= bs
+//@   ensures as(result, ansiRetailMAC).b1 != nil && as(result, ansiRetailMAC).b2 != nil && as(result, ansiRetailMAC).pad != nil
+//@   ensures BS(id(as(result, ansiRetailMAC).b1)) == bs && BS(id(as(result, ansiRetailMAC).b2)) == bs && PADBS(id(as(result, ansiRetailMAC).pad)) == bs
+//@   modifies nothing
+
+//@ func NewMACDESWithPadding property C19
+//@   config bs in 8,16
+//@   requires FBS() == bs && creator != nil && newPaddingFunc != nil
+//@   fnspec creator: std:cipherCreator
+//@   fnspec newPaddingFunc: std:paddingCreator
+//@   maypanic
+//@   ensures typeis(result, *macDES) && as(result, macDES).size == size && 1 <= size && size <= bs
+//@   ensures as(result, macDES).b1 != nil && as(result, macDES).b2 != nil && as(result, macDES).b3 != nil && as(result, macDES).pad != nil
+//@   ensures BS(id(as(result, macDES).b1)) == bs && BS(id(as(result, macDES).b2)) == bs && BS(id(as(result, macDES).b3)) == bs && PADBS(id(as(result, macDES).pad)) == bs
+//@   ensures id(as(result, macDES).b1) == CIPHID(arr(key1), offof(key1), len(key1)) && id(as(result, macDES).b2) == CIPHID(arr(key2), offof(key2), len(key2))
+//@   modifies nothing
+//@   loop 1 invariant -1 <= rangeindex && rangeindex < len(key2) && len(key3) == len(key2) && objof(key3) < 0
+//@   loop 1 decreases len(key2) - rangeindex
+
+//@ func NewTRCBCMAC property C19
+//@   config bs in 8,16
+//@   requires b != nil && BS(id(b)) == bs
+//@   panics iff size <= 0 || size > bs
+//@   ensures typeis(result, *trCBCMAC) && as(result, trCBCMAC).size == size && as(result, trCBCMAC).b == b
+//@   modifies nothing
+
+//@ func NewCBCRMAC property C19
+//@   config bs in 8,16
+//@   requires b != nil && BS(id(b)) == bs
+//@   panics iff size <= 0 || size > bs
+//@   ensures typeis(result, *cbcrMAC) && as(result, cbcrMAC).size == size && as(result, cbcrMAC).b == b
+//@   modifies nothing
